@@ -145,7 +145,7 @@ fn id_class(id: u32, m: &Model) -> &'static str {
         "beyond"
     } else if id == 0 {
         "first"
-    } else if id + 1 == m.next_id {
+    } else if id.checked_add(1) == Some(m.next_id) {
         "last"
     } else if id % 3200 == 0 || id % 3200 == 3199 {
         "bucket-edge"
@@ -208,7 +208,7 @@ pub fn history(cfg: &Cfg, rep: &mut Report, fl: Fl, h: u64, steps: usize, mode: 
         let pick_id = |rng: &mut Rng, m: &Model| -> u32 {
             if live_ids.is_empty() || rng.chance(1, 10) {
                 // burned, beyond range, or arbitrary
-                let c: Vec<u32> = vec![m.next_id, m.next_id + 1, m.next_id.saturating_sub(1), 0, u32::MAX];
+                let c: Vec<u32> = vec![m.next_id, m.next_id.saturating_add(1), m.next_id.saturating_sub(1), 0, u32::MAX];
                 let burned: Vec<u32> = m.ever.iter().filter(|i| !m.owner.contains_key(i)).cloned().collect();
                 if !burned.is_empty() && rng.chance(1, 2) {
                     *rng.pick(&burned)
@@ -219,10 +219,14 @@ pub fn history(cfg: &Cfg, rep: &mut Report, fl: Fl, h: u64, steps: usize, mode: 
                 // edges: first, last, item (32) and bucket (3200) edges, neighbours of what was touched
                 let mut c: Vec<u32> = vec![live_ids[0], *live_ids.last().unwrap()];
                 for k in &last_touched {
-                    c.extend([k.saturating_sub(1), *k, k + 1, k + 2]);
+                    c.extend([k.saturating_sub(1), *k, k.saturating_add(1), k.saturating_add(2)]);
                 }
-                for e32 in [31u32, 32, 33, 63, 64, 3199, 3200, 3201, 6399, 6400] {
+                for e32 in [31u32, 32, 33, 63, 64] {
                     c.push(e32);
+                }
+                // every bucket edge (3200 ids per bucket) up to the largest batch
+                for b in 1..=10u32 {
+                    c.extend([b * 3200 - 1, b * 3200, b * 3200 + 1]);
                 }
                 let c: Vec<u32> = c.into_iter().filter(|i| m.owner.contains_key(i)).collect();
                 if c.is_empty() {
@@ -264,9 +268,10 @@ pub fn history(cfg: &Cfg, rep: &mut Report, fl: Fl, h: u64, steps: usize, mode: 
                 Op::Batch { to: a_, amount }
             } else if fl.explicit() {
                 // explicit fresh ids: spread, never reused
-                let mut id = rng.below(5000) as u32;
+                // (one in eight near the top of the id space)
+                let mut id = if rng.chance(1, 8) { u32::MAX - rng.below(40) as u32 } else { rng.below(5000) as u32 };
                 while m.ever.contains(&id) {
-                    id += 1;
+                    id = id.wrapping_add(1);
                 }
                 Op::Mint { to: a_, id: Some(id) }
             } else {
@@ -498,24 +503,29 @@ pub fn history(cfg: &Cfg, rep: &mut Report, fl: Fl, h: u64, steps: usize, mode: 
             }
         }
         // ---- observation ----
-        let range_end = if fl.explicit() { m.ever.iter().max().map_or(0, |x| x + 1) } else { m.next_id };
+        let range_end = if fl.explicit() { m.ever.iter().max().map_or(0, |x| x.saturating_add(1)) } else { m.next_id };
         let mut ids: BTreeSet<u32> = BTreeSet::new();
         let full = range_end <= 600 && (mode == Mode::Ownership || range_end <= 40);
         if fl.explicit() {
             for i in m.ever.iter() {
-                ids.extend([i.saturating_sub(1), *i, i + 1]);
+                ids.extend([i.saturating_sub(1), *i, i.saturating_add(1)]);
             }
         } else if full || (step % 25 == 24 && range_end <= 4000) || (step + 1 == steps && range_end <= 8000) {
             ids.extend(0..range_end + 8);
             rep.count("full_sweeps");
         } else {
             for k in &last_touched {
-                ids.extend([k.saturating_sub(2), k.saturating_sub(1), *k, k + 1, k + 2]);
+                ids.extend([k.saturating_sub(2), k.saturating_sub(1), *k, k.saturating_add(1), k.saturating_add(2)]);
             }
-            for e32 in [0u32, 31, 32, 33, 3199, 3200, 3201, 6399, 6400, 6401] {
+            for e32 in [0u32, 31, 32, 33] {
                 ids.insert(e32);
             }
-            ids.extend([range_end.saturating_sub(1), range_end, range_end + 1]);
+            for b in 1..=10u32 {
+                if b * 3200 <= range_end + 1 {
+                    ids.extend([b * 3200 - 1, b * 3200, b * 3200 + 1]);
+                }
+            }
+            ids.extend([range_end.saturating_sub(1), range_end, range_end.saturating_add(1)]);
             // stratified sample over the range
             let k = if step + 1 == steps { 256 } else { 32 };
             for j in 0..k {
@@ -525,7 +535,7 @@ pub fn history(cfg: &Cfg, rep: &mut Report, fl: Fl, h: u64, steps: usize, mode: 
             }
             // explicit owners and burned ids are where the consecutive structure can go wrong
             for i in m.ever.iter().filter(|i| !m.owner.contains_key(i)).take(64) {
-                ids.extend([i.saturating_sub(1), *i, i + 1]);
+                ids.extend([i.saturating_sub(1), *i, i.saturating_add(1)]);
             }
         }
         let mut mism = 0;
